@@ -72,6 +72,40 @@ func streamFn(seed uint64, idx int) caseT {
 		// strings that look like numbers to one parser or another
 		args[0] = literalTok(numberish[(idx/len(fnSigs)/2)%len(numberish)])
 	}
+	if sig.name == "contains" && (idx/len(fnSigs))%4 == 3 {
+		// array elements and needles drawn from the comparison universe (objects with null members under
+		// different keys, nested empties, adjacent floats): contains uses deep equality
+		k2 := idx / len(fnSigs) / 4
+		u1, u2 := universe[k2%len(universe)], universe[(k2/len(universe))%len(universe)]
+		args[0], args[1] = literalTok([]interface{}{u1, []interface{}{u1}}), literalTok(u2)
+	}
+	if sig.hasRef() && (idx/len(fnSigs))%5 == 4 {
+		// a by-expression function inside the key expression of another one (scratch state of the outer
+		// call must survive the inner call): groups of 1–6 rows, numeric or string keys, ties
+		strKeys := g.r.chance(40)
+		mkRows := func(m int) []interface{} {
+			rows := make([]interface{}, m)
+			for i := range rows {
+				var k interface{} = float64(g.r.intn(4))
+				if strKeys {
+					k = g.r.pick([]string{"p", "q", "r", "s"})
+				}
+				rows[i] = map[string]interface{}{"a": k, "n": float64(g.r.intn(100)), "t": g.r.pick([]string{"x", "y", "z", "w"})}
+			}
+			return rows
+		}
+		ng := 2 + g.r.intn(5)
+		groups := make([]interface{}, ng)
+		for i := range groups {
+			groups[i] = map[string]interface{}{"rows": mkRows(1 + g.r.intn(6)), "id": float64(i)}
+		}
+		inner := g.r.pick([]string{"sort_by(rows, &a)[0].n", "sort_by(rows, &t)[0].t", "max_by(rows, &n).n", "min_by(rows, &t).t", "length(sort_by(rows, &n))", "sort_by(rows, &n)[-1].a",
+			"max_by(sort_by(rows, &a), &n).n", "map(&n, sort_by(rows, &t))[0]", "sum(map(&n, rows))", "sort(map(&t, rows))[0]"})
+		outer := g.r.pick([]string{"sort_by(groups, &%s)[*].id", "max_by(groups, &%s).id", "min_by(groups, &%s).id", "map(&%s, groups)", "sort_by(groups, &%s)[*].rows[0].n",
+			"map(&sort_by(rows, &a)[*].n, groups)", "groups[*].sort_by(rows, &t)[*].n", "sort_by(groups, &%s) | [sort_by(@, &%s)[0].id, @[0].id]"})
+		e := strings.Replace(outer, "%s", inner, -1)
+		return caseT{lines: []string{"S " + hexField(e) + " " + canonOf(map[string]interface{}{"groups": groups})}}
+	}
 	doc := interface{}(nil)
 	// large arrays with ties (stability of sort_by, first-extremal of max_by/min_by)
 	if (sig.name == "sort_by" || sig.name == "max_by" || sig.name == "min_by" || sig.name == "sort") && g.r.chance(30) {
@@ -158,6 +192,9 @@ var errSeeds = []string{"abs(`\"a\"`)", "length(`1`)", "nosuch(@)", "abs()", "`[
 	"sort_by(`[{\"a\":\"x\"},{\"a\":1},{\"a\":2}]`, &abs(a))", "max_by(`[{\"a\":\"x\"},{\"a\":1}]`, &abs(a))", "(`{\"p\":\"x\",\"q\":1}`.*.abs(@))", "`[]`[::0]",
 	"(`[1,\"x\"]`[0:2].abs(@))", "[abs(`\"x\"`), `1`]", "{p: abs(`\"x\"`), q: `1`}",
 	// a function applied to a null current node after a dot / index (the left side is null, the right side still runs)
+	// by-expression functions whose key expression fails on a LATER element only (the first key is fine)
+	"sort_by(`[3,1,\"x\",2]`, &abs(@))", "sort_by(`[{\"a\":1},{\"a\":2},{\"a\":\"x\"}]`, &abs(a))", "max_by(`[{\"a\":1},{\"a\":\"x\"}]`, &abs(a))", "min_by(`[1,2,3,\"x\",4]`, &abs(@))",
+	"sort_by(`[\"b\",\"a\",1]`, &length(@))", "map(&abs(@), `[1,2,3,4,\"x\"]`)",
 	"`null`.abs(@)", "`null`.nosuch(@)", "(`[]`[0].length(@))", "`{}`.k.abs(@)"}
 
 // One-hole contexts in which the hole must be evaluated (document: errDoc).
@@ -396,6 +433,14 @@ func streamPipe(seed uint64, idx int) caseT {
 		bs := g.r.pick([]string{"[0]", "[:1]", "length(@)", "@[0]", "[0] | @", "not_null(@)"})
 		return caseT{lines: []string{"P " + hexField(as) + " " + hexField(bs) + " " + canonOf(doc)}}
 	}
+	if g.r.chance(6) {
+		// A is a projection that DROPS nulls; B is a projection whose right-hand side does not map null to null
+		as := g.r.pick([]string{"`[{\"a\":1},{\"b\":2},{\"a\":3}]`[*].a", "`[{\"a\":\"x\"},{},{\"a\":null},{\"a\":[]}]`[*].a", "`[[1],[],[null,2]]`[*][0]",
+			"`[{\"a\":1},{\"b\":2}]`[?@].a", "`[{\"a\":{\"b\":1}},{\"a\":{}}]`[*].a.b", "`{\"k\":{\"a\":1}}`.*.b", "`[[{\"a\":1}],[{\"b\":1}]]`[].a", "`[{\"a\":1},{\"b\":2},{\"a\":3}]`[0:3].a"})
+		bs := g.r.pick([]string{"[*].type(@)", "[*].not_null(@, `\"d\"`)", "[*].to_string(@)", "[].type(@)", "[?type(@) == 'null']", "[*].length(@)", "[*].[@]", "[*].{k: @}", "[*].(@ == `null`)",
+			"[*].to_array(@)", "[::1].type(@)", "[?@ == `null`]", "length(@)", "[*] | length(@)"})
+		return caseT{lines: []string{"P " + hexField(as) + " " + hexField(bs) + " " + canonOf(doc), "S " + hexField(as+" | "+bs) + " " + canonOf(doc)}}
+	}
 	av, ok := evalSafe(a.text(), doc)
 	if !ok {
 		av = nil
@@ -532,6 +577,22 @@ func streamCLI(seed uint64, idx int) caseT {
 		input = g.r.pick([]string{"", " ", "nul", "{\"a\":1e999}", "[1,]", "{\"a\":\"str\"}", "\xff", "1e400", "{\"a\":1}{\"a\":2}", "[1,2,3]]", "\"\\ud800\"", "-0", "123456789012345678901234567890"})
 	case 3:
 		input = " \n" + input + "\n"
+	}
+	if g.r.chance(8) {
+		// characters that Go's strings/bytes.TrimSpace or unicode.IsSpace treat as white space but JSON does not
+		ws := g.r.pick([]string{"\v", "\f", "\u0085", "\u00a0", "\u2028", "\u2029", "\u3000", "\u1680", "\u2003", "\ufeff", "\x00", "\x1c", "\x1f"})
+		if g.r.chance(50) {
+			input = ws + jsonText(doc)
+		} else {
+			input = jsonText(doc) + ws
+		}
+	}
+	if idx%150 == 5 {
+		// an input larger than any plausible buffer or read limit (5–9 MiB), valid JSON with the interesting part at the END
+		// (line kind XB: the worker builds the input from its size; judged on the implementation alone)
+		n := 5<<20 + g.r.intn(4<<20)
+		expr = g.r.pick([]string{"a", "b[2]", "[a, b]", "length(pad) > `100`"})
+		return caseT{lines: []string{"XB " + g.r.pick([]string{"s", "f"}) + " " + hexField(expr) + " " + strconv.Itoa(n)}}
 	}
 	mode := g.r.pick([]string{"s", "f", "s", "f", "s", "f", "m", "a0", "a2"})
 	return caseT{lines: []string{"X " + mode + " " + hexField(expr) + " " + hexField(input)}}
